@@ -10,7 +10,11 @@ package storage
 // one table past leaf and root splits, updates and deletes, and compares the data file (size and
 // SHA-256) before and after every body; then it flushes as the statement itself would.
 //
-// in  {"tables": 9, "rows": 24}
+// With "cache" > 0 the page cache holds that many pages only and "flush_every" = 0 never flushes
+// between the rows of the growing table: the dirty set of the shared-lock part grows until the cache
+// has no clean page left to evict; the body must then fail (ErrLRUCacheFull) and still write nothing.
+//
+// in  {"tables": 9, "rows": 24, "cache": 0, "flush_every": 5}
 // out {"steps": [{"what": "create t7", "changed": false}, ...]}
 
 import (
@@ -42,13 +46,18 @@ func init() {
 		n := 0
 		for in.Scan() {
 			var c struct {
-				Tables int `json:"tables"`
-				Rows   int `json:"rows"`
+				Tables     int `json:"tables"`
+				Rows       int `json:"rows"`
+				Cache      int `json:"cache"`
+				FlushEvery int `json:"flush_every"`
 			}
 			if err := json.Unmarshal(in.Bytes(), &c); err != nil {
 				return err
 			}
 			n++
+			if c.FlushEvery == 0 && c.Cache == 0 {
+				c.FlushEvery = 5
+			}
 			root, err := os.MkdirTemp("", "verif_c13body_")
 			if err != nil {
 				return err
@@ -63,7 +72,7 @@ func init() {
 				if err := CreateDB(db); err != nil {
 					return err
 				}
-				rs, err := VerifOpenRelation(db, 0, false)
+				rs, err := VerifOpenRelation(db, c.Cache, false)
 				if err != nil {
 					return err
 				}
@@ -92,15 +101,22 @@ func init() {
 						batch = append(batch, b...)
 						return err
 					})
-					if i%5 == 0 {
+					if c.FlushEvery > 0 && i%c.FlushEvery == 0 {
 						body("log append", func() error { err := rs.FlushWALBatch(batch); batch = nil; return err })
 						if err := rs.fs.flushPages(); err != nil {
 							return err
 						}
 					}
 				}
+				if err := rs.fs.flushPages(); err != nil {
+					return err
+				}
 				rows, _, err := rs.Fetch("t1")
 				if err != nil {
+					if c.Cache > 0 {
+						rs.VerifAbandon()
+						return nil
+					}
 					return err
 				}
 				for k, r := range rows {
